@@ -721,12 +721,12 @@ class Interp {
         with_ord<MAXO>((unsigned)op.a % (MAXO + 1), [&](auto O) { store_spline(Spline<T, decltype(O)::value>(grids[(unsigned)op.b % ng])); });
         return true;
       }
-      case P_COPY: case P_MOVE: case P_ASSIGN: case P_MOVE_ASSIGN: case P_SELF_ASSIGN: case P_SELF_MOVE_ASSIGN:
       case P_INTERPOLATE: {
         if (!ns) return false;
         interpolate_op(op);
         return true;
       }
+      case P_COPY: case P_MOVE: case P_ASSIGN: case P_MOVE_ASSIGN: case P_SELF_ASSIGN: case P_SELF_MOVE_ASSIGN:
       case P_SCALE: case P_DIV: case P_NEG: case P_ISCALE: case P_IDIV: case P_EVAL: case P_FRONTBACK: case P_LINFORM: case P_APPLY: {
         auto oo = pick_order(op.a);
         if (!oo) return false;
@@ -752,6 +752,7 @@ class Interp {
   // interpolation through the generic routine with a user solver; the abscissae are a NAMED pool support (an lvalue):
   // it is an operand and must not change
   void interpolate_op(const Op &op) {
+    if (op.code != P_INTERPOLATE) { fail("HARNESS", std::string("opcode ") + code_name(op.code) + " was routed to the interpolation handler"); return; }
     size_t idx = (size_t)(unsigned)op.b % sups.size();
     touch(1, idx);
     const size_t np = sups[idx].size();
@@ -897,7 +898,7 @@ class Interp {
         });
         break;
       }
-      default: break;
+      default: fail("HARNESS", std::string("opcode ") + code_name(op.code) + " reached the unary handler, which does not implement it"); break;
     }
   }
 
@@ -1172,7 +1173,7 @@ class Interp {
         }
         break;
       }
-      default: break;
+      default: fail("HARNESS", std::string("opcode ") + code_name(op.code) + " reached the binary handler, which does not implement it"); break;
     }
   }
 
